@@ -62,6 +62,16 @@ def generate(rng, tier, index):
         # (some test particles: a cell whose only remaining occupant is massless must not keep the mass of those who left)
         ps.append(dict(m=(0.0 if c.chance(0.15) else c.loguniform(1e-9, 1e-6)), x=x, y=y, z=z, vx=c.uniform(-vs, vs), vy=c.uniform(-vs, vs), vz=c.uniform(-vs, vs),
                        r=(c.loguniform(1e-3, 3e-2) * size if collision == "tree" else 0.0), hash=1000 + i, kind=kind))
+    if collision == "tree" and rng.derive("ghostmerge").chance(0.25):
+        # a massless particle (lower index) overlapping a massive one, both at rest on a box edge: the merger moves the survivor exactly onto the victim, which
+        # is only flagged at that point and still sits in its leaf
+        gm = rng.derive("ghostmerge")
+        e_ = 0.5        # the upper edge: a coordinate on the upper face compares like NaN in the octant selection at every level
+        zz = gm.uniform(-0.4, 0.4) * Lz
+        rr = 0.02 * size
+        dz_ = gm.choice([0.8, -0.8]) * rr       # (which of the two leaves the tree update visits first depends on the sign)
+        ps.append(dict(m=0.0, x=e_ * Lx, y=e_ * Ly, z=zz + dz_, vx=0.0, vy=0.0, vz=0.0, r=rr, hash=1000 + len(ps), kind="ghostmerge"))
+        ps.append(dict(m=1e-7, x=e_ * Lx, y=e_ * Ly, z=zz, vx=0.0, vy=0.0, vz=0.0, r=rr, hash=1000 + len(ps), kind="ghostmerge"))
     o = rng.derive("ops")
     ops = []
     nh = [5000]
